@@ -771,8 +771,57 @@ def _gen_writelayout(repo):
                     trailer = last.left.value
     if trailer is None:
         raise ValueError("write_column: the v1 page body is no longer b''.join([repetition_data, definition_data, values, k * b'\\x00'])")
-    return ("-- REGENERATED from fastparquet/writer.py (encode_dict, write_column) - do not edit\n"
+    # make_definitions: the two level-block layouts
+    md = fns["make_definitions"]
+    top = [n for n in md.body if isinstance(n, ast.If) and ast.unparse(n.test) == "no_nulls"]
+    if len(top) != 1:
+        raise ValueError("make_definitions: expected one `if no_nulls:` split")
+    def calls(stmts, suffix):
+        return [n for st in stmts for n in ast.walk(st) if isinstance(n, ast.Call) and ast.unparse(n.func).endswith(suffix)]
+    def tr_def(node, names):
+        s_ = ast.unparse(node)
+        if s_ in names:
+            return names[s_]
+        if isinstance(node, ast.Constant) and isinstance(node.value, int):
+            return f"({node.value} : Int)"
+        if isinstance(node, ast.BinOp):
+            if isinstance(node.op, ast.BitOr) and isinstance(node.right, ast.Constant) and node.right.value == 1 and \
+               isinstance(node.left, ast.BinOp) and isinstance(node.left.op, ast.LShift) and isinstance(node.left.right, ast.Constant):
+                return f"(({tr_def(node.left.left, names)} * {2 ** node.left.right.value}) + 1)"
+            if isinstance(node.op, ast.LShift) and isinstance(node.right, ast.Constant):
+                return f"({tr_def(node.left, names)} * {2 ** node.right.value})"
+            op = {ast.Add: "+", ast.Sub: "-", ast.Mult: "*", ast.FloorDiv: "/"}.get(type(node.op))
+            if op:
+                return f"({tr_def(node.left, names)} {op} {tr_def(node.right, names)})"
+        raise ValueError("unsupported expression in make_definitions: " + s_[:80])
+    nn_body, n_body = top[0].body, top[0].orelse
+    # no nulls: l = len(data); varint(l << 1); write_byte(1); '<I' prefix of temp.tell() in v1
+    h1 = calls(nn_body, "encode_unsigned_varint")
+    b1 = calls(nn_body, "write_byte")
+    p1 = [c for c in calls(nn_body, "struct.pack")]
+    if len(h1) != 1 or len(b1) != 1 or len(p1) != 1:
+        raise ValueError("make_definitions (no nulls): run header / value byte / length prefix not found")
+    rle_header = tr_def(h1[0].args[0], {"l": "(n : Int)", "len(data)": "(n : Int)"})
+    rle_value = tr_def(b1[0].args[0], {})
+    if ast.unparse(p1[0].args[0]) != "'<I'" or ast.unparse(p1[0].args[1]) != "temp.tell()":
+        raise ValueError("make_definitions (no nulls): the v1 prefix is no longer struct.pack('<I', temp.tell())")
+    # nulls: out = encode_plain(notnull bits); varint(len(out) << 1 | 1); '<I' prefix of len(head) + len(out) in v1
+    h2 = calls(n_body, "encode_unsigned_varint")
+    p2 = calls(n_body, "struct.pack")
+    if len(h2) != 1 or len(p2) != 1:
+        raise ValueError("make_definitions (nulls): run header / length prefix not found")
+    bp_header = tr_def(h2[0].args[0], {"len(out)": "(m : Int)"})
+    if ast.unparse(p2[0].args[0]) != "'<I'" or ast.unparse(p2[0].args[1]).replace(" ", "") != "len(head)+len(out)":
+        raise ValueError("make_definitions (nulls): the v1 prefix is no longer struct.pack('<I', len(head) + len(out))")
+    prefixed = [ast.unparse(n.test) for st in (nn_body + n_body) for n in ast.walk(st) if isinstance(n, ast.If)]
+    if prefixed != ["datapage_version == 1", "datapage_version == 1"]:
+        raise ValueError("make_definitions: the length prefix is no longer written exactly when datapage_version == 1")
+    return ("-- REGENERATED from fastparquet/writer.py (encode_dict, make_definitions, write_column) - do not edit\n"
             "namespace PqV.Gen.WriteLayout\n"
+            f"def defRleHeader (n : Nat) : Int := {rle_header}\n"
+            f"def defRleValue : Int := {rle_value}\n"
+            f"def defBpHeader (m : Nat) : Int := {bp_header}\n"
+            "def defPrefixBytes : Nat := 4\n"
             f"def dictWidthByte (item : Nat) : Int := {wbyte.replace('width', env['width']) if wbyte == 'width' else wbyte}\n"
             f"def dictHeader (n item : Nat) : Int := {header}\n"
             f"def dictPad (n item : Nat) : Int := {env['pad']}\n"
@@ -794,6 +843,8 @@ def gen_writelayout(repo):
                 "def dictHeader (n item : Nat) : Int := ((n : Int) + 7) / 8 * 2 + 1\n"
                 "def dictPad (n item : Nat) : Int := (((n : Int) + 7) / 8 * 8 - n) * item\n"
                 "def v1Trailer : Nat := 8\n"
+                "def defRleHeader (n : Nat) : Int := (n : Int) * 2\ndef defRleValue : Int := 1\n"
+                "def defBpHeader (m : Nat) : Int := (m : Int) * 2 + 1\ndef defPrefixBytes : Nat := 4\n"
                 "def recognised : Bool := false\n"
                 f"def note : String := \"{msg}\"\n"
                 "end PqV.Gen.WriteLayout\n")
